@@ -320,7 +320,7 @@ class Engine:
     def cf(self, x):
         """casefold in oracle formulas (registered, so that counterexamples define it at character level)"""
         t = _s(x)
-        if not any(t.eq(a) for a in self.cf_apps):
+        if not any((not isinstance(a, tuple)) and t.eq(a) for a in self.cf_apps):
             self.cf_apps.append(t)
         return CF(t)
 
@@ -654,9 +654,23 @@ class Engine:
         strs = [z3.String(n) for n, s in self.inputs.items() if s == "str"]
         nosur = [z3.Not(z3.InRe(v, HAS_SURROGATE)) for v in strs]
         cfdef = []
-        for t in cf_apps:
-            cfdef.append(z3.InRe(t, z3.Loop(z3.Range(" ", "~"), 0, 3)))
-            cfdef.append(CF(t) == ascii_lower_expr(t, 3))
+        short = z3.Loop(z3.Range(" ", "~"), 0, 3)
+        for app in cf_apps:
+            kind, t = app if isinstance(app, tuple) else ("casefold", app)
+            if kind == "casefold":      # ASCII strings of length <= 3, plus the classic non-trivial foldings
+                cfdef.append(z3.Or(z3.And(z3.InRe(t, short), CF(t) == ascii_lower_expr(t, 3)),
+                                   z3.And(t == z3.StringVal("\u00df"), CF(t) == z3.StringVal("ss")),
+                                   z3.And(t == z3.StringVal("\u017f"), CF(t) == z3.StringVal("s"))))
+            elif kind == "islower":
+                cfdef.append(z3.Or(z3.And(z3.InRe(t, short), ISLOWER(t) == ascii_islower_expr(t, 3)),
+                                   z3.And(z3.Or(t == z3.StringVal("\u00df"), t == z3.StringVal("\u017f")), ISLOWER(t))))
+            elif kind.startswith("normalize:"):
+                f = norm_fn(kind.split(":", 1)[1])
+                composed = kind.endswith(("NFC", "NFKC"))
+                pairs = [("e\u0301", "\u00e9"), ("\u00e9", "\u00e9"), ("A\u030a", "\u00c5"), ("\u212b", "\u00c5")] if composed else \
+                        [("\u00e9", "e\u0301"), ("e\u0301", "e\u0301"), ("\u00c5", "A\u030a")]
+                cfdef.append(z3.Or(z3.And(z3.InRe(t, short), f(t) == t),
+                                   *[z3.And(t == z3.StringVal(a), f(t) == z3.StringVal(b)) for a, b in pairs]))
         blocks = [z3.Or([z3.String(n) != z3.StringVal(v) for n, v in b.items() if isinstance(v, str)] or [z3.BoolVal(False)])
                   for b in block]
         attempts = [
@@ -992,8 +1006,9 @@ class SymAffix(SymBool):
         if r and getattr(eng, "symbolic", False):
             v = eng.norm(self.s)
             pn = eng.norm(self.p)
-            # only for a symbolic affix: a constant one is cheaper to keep as a plain prefixof / suffixof literal
-            if (z3.is_const(v) and v.decl().kind() == z3.Z3_OP_UNINTERPRETED and not z3.is_string_value(pn)
+            # (a long constant affix is cheaper to keep as a plain prefixof / suffixof literal)
+            if (z3.is_const(v) and v.decl().kind() == z3.Z3_OP_UNINTERPRETED
+                    and (not z3.is_string_value(pn) or 0 < len(z3str_to_py(pn)) <= 2)
                     and not any(x.eq(v) for x in flatten(pn))):
                 key = ("affix", v.get_id(), pn.get_id(), self.front)
                 if key not in eng.memo:
@@ -1002,6 +1017,25 @@ class SymAffix(SymBool):
                     rep = z3.Concat(pn, rest) if self.front else z3.Concat(rest, pn)
                     eng.define(v == rep)
                     eng.subst.append((v, rep))
+            elif z3.is_string_value(pn) and len(z3str_to_py(pn)) == 1 and z3.is_app_of(v, z3.Z3_OP_SEQ_CONCAT):
+                # a one-character affix of a concatenation: it sits in the first (last) non-empty part
+                parts = flatten(v)
+                order = range(len(parts)) if self.front else range(len(parts) - 1, -1, -1)
+                for i in order:
+                    part = eng.norm(parts[i])
+                    if z3.is_string_value(part):
+                        if z3str_to_py(part):
+                            break
+                        continue
+                    if not (z3.is_const(part) and part.decl().kind() == z3.Z3_OP_UNINTERPRETED):
+                        break
+                    if eng.branch(z3.Length(part) > 0):
+                        rest = eng.fresh_str("ar")
+                        rep = z3.Concat(pn, rest) if self.front else z3.Concat(rest, pn)
+                        eng.define(part == rep)
+                        eng.subst.append((part, rep))
+                        break
+                    eng.subst.append((part, z3.StringVal("")))
         return r
 
 
@@ -1258,6 +1292,19 @@ class SymStr:
     def isalpha(self): return self._cls("isalpha")
     def isspace(self): return self._cls("isspace")
 
+    def isascii(self):
+        return SymBool(z3.InRe(self.e, ASCII_ONLY))
+
+    def __getattr__(self, name):
+        # any str method the proxy does not model: inconclusive, never an AttributeError attributed to the code under test
+        if name.startswith("__"):
+            raise AttributeError(name)
+        raise Unsupported(f"str.{name} is not modelled by the string proxy")
+
+    def islower(self):
+        E().cf_apps.append(("islower", self.e))
+        return SymBool(ISLOWER(self.e))
+
     def isnumeric(self): raise Unsupported("isnumeric")
     def isdecimal(self): raise Unsupported("isdecimal")
     def isidentifier(self): raise Unsupported("isidentifier")
@@ -1321,7 +1368,7 @@ class SymStr:
                 h, t = txt.rsplit(sep_txt, 1) if right else txt.split(sep_txt, 1)
                 cand = (parts[:i] + [z3.StringVal(h)], [z3.StringVal(t)] + parts[i + 1:])
                 break
-        if cand is None and sep_txt is not None and not getattr(self, "_noglue", False):
+        if cand is None and sep_txt is not None:
             # a constant separator may only appear across parts when the symbolic "glue" between two constant
             # parts is empty: fork on that emptiness and retry on the merged constants
             for i in range(1, len(parts) - 1):
@@ -1606,6 +1653,37 @@ class SymStripped(SymStr):
 SPLIT_UNROLL = 2
 CF = z3.Function("casefold", z3.StringSort(), z3.StringSort())
 UP = z3.Function("upper", z3.StringSort(), z3.StringSort())
+
+
+ISLOWER = z3.Function("islower", z3.StringSort(), z3.BoolSort())
+_NORM = {}
+
+
+def norm_fn(form):
+    if form not in _NORM:
+        _NORM[form] = z3.Function("normalize_" + form, z3.StringSort(), z3.StringSort())
+    return _NORM[form]
+
+
+def sym_normalize(form, s):
+    """unicodedata.normalize on a proxy: an uninterpreted function per normal form (congruence only); counterexamples
+    are refined with a small table of composed / decomposed pairs."""
+    if not isinstance(s, SymStr):
+        import unicodedata
+        return unicodedata.normalize(form, s)
+    if not isinstance(form, str):
+        raise Unsupported("symbolic normal form")
+    E().cf_apps.append(("normalize:" + form, s.e))
+    return SymStr(norm_fn(form)(s.e))
+
+
+def ascii_islower_expr(t, bound):
+    some, none_upper = [], []
+    for k in range(bound):
+        code = z3.StrToCode(z3.SubString(t, k, 1))
+        some.append(z3.And(z3.Length(t) > k, code >= 97, code <= 122))
+        none_upper.append(z3.Not(z3.And(z3.Length(t) > k, code >= 65, code <= 90)))
+    return z3.And(z3.Or(some), *none_upper)
 
 
 def ascii_lower_expr(t, bound):
